@@ -258,6 +258,15 @@ func (g *Gen) decForFloat() d128.Decimal {
 func genC09(g *Gen) {
 	g.setMode(0)
 	precs := []int{-1, 0, 1, 2, 24, 53, 64, 100, 113, 114, 115, 128, 200, 1000}
+	g.floatEdgeGrid(0.3, func(x d128.Decimal) {
+		g.un("Float64", x)
+		g.un("Float32", x)
+		if g.r.Intn(4) == 0 {
+			e := Ev{"op": "Float", "rprec": []int{-1, 24, 53}[g.r.Intn(3)]}
+			e.setDec("x", x)
+			g.emit(e)
+		}
+	})
 	for !g.w.full() {
 		switch g.r.Intn(8) {
 		case 0, 1:
